@@ -66,19 +66,20 @@ def run_tests(wt, what, feats=None):
 
 def confirm(pid, k):
     src = os.path.join(SEED_OUT, pid)
-    patch = os.path.join(src, "m%s.patch.diff" % k)
-    demo = os.path.join(src, "m%s.demo.rs" % k)
-    readme = os.path.join(src, "m%s.README.md" % k)
+    pre = ("m%s" % k) if str(k).isdigit() else str(k)
+    patch = os.path.join(src, "%s.patch.diff" % pre)
+    demo = os.path.join(src, "%s.demo.rs" % pre)
+    readme = os.path.join(src, "%s.README.md" % pre)
     if not (os.path.exists(patch) and os.path.exists(demo)):
         print("missing files for %s m%s" % (pid, k))
         return 2
-    wt = "/tmp/confirm-%s-m%s" % (pid, k)
+    wt = "/tmp/confirm-%s-%s" % (pid, pre)
     sh(["git", "-C", REPO, "worktree", "remove", "--force", wt])
     rc, out = sh(["git", "-C", REPO, "worktree", "add", "-q", wt, "HEAD"])
     if rc:
         print(out)
         return 2
-    meta = {"id": "%s-m%s" % (pid, k), "property": pid, "confirmed_at_repo_commit": sh(["git", "-C", REPO, "rev-parse", "--short", "HEAD"])[1].strip()}
+    meta = {"id": "%s-%s" % (pid, pre), "property": pid, "confirmed_at_repo_commit": sh(["git", "-C", REPO, "rev-parse", "--short", "HEAD"])[1].strip()}
     try:
         shutil.copy(os.path.join(REPO, "Cargo.lock"), wt)
         demo_src = open(demo).read()
